@@ -390,4 +390,6 @@ def _still_wellformed(subject):
                 n_out += len(modes) * (2 if i["type"] in ("HeterodyneMeasurement", "GeneraldyneMeasurement") else 1)
             for m in modes:
                 active.remove(m)
+    if not any(outcomes.is_measurement(i["type"]) and i["type"] not in ("PostSelectPhotons", "ImperfectPostSelectPhotons") for i in subject["program"]):
+        return False  # every generated subject ends in a measurement: a minimised one must stay a program the checks could have generated
     return True
